@@ -93,7 +93,7 @@ CHECKS["C06"] = dict(
           for (lb, db) in ((4294967000, 0), (0, 0), (2147483000, 0), (100000, 4294960000), (5000, 2147481000))] + [
         dict(pkg="pkg/report", entry="HC06Loss", params=dict(packets=3, fwd=3, back=3), thorough=dict(params=dict(packets=3, fwd=4, back=4), flags=["-qtimeout", "300000"], timeout=3400)),
         dict(pkg="pkg/report", entry="HC06LossStep", params=dict(maxjump=6), require_covers=["jump across the sequence wrap", "cumulative lost saturates"]),
-        dict(pkg="pkg/report", entry="HC06Interceptor", require_covers=["lossy stream reported"], no_native=True),
+        dict(pkg="pkg/report", entry="HC06Interceptor", require_covers=["lossy stream reported", "sender report behind one for an unbound stream"], no_native=True),
         dict(pkg="pkg/report", entry="HC06SR", params=dict(elbase=0)),
         dict(pkg="pkg/report", entry="HC06SR", params=dict(elbase=65535999000000)),
     ],
@@ -126,10 +126,10 @@ CHECKS["C09"] = dict(
         dict(pkg="internal/verifchain", entry="HC09Compose", require_covers=["composed"]),
         dict(pkg="pkg/rtpfb", entry="HC09ConvertTWCC", require_covers=["converted", "received without delta"]),
         dict(pkg="pkg/rtpfb", entry="HC09Rtpfb", require_covers=["two feedbacks"]),
-    ],
-    bounds=dict(quick="gcc FeedbackAdapter: 3 covered sequence numbers + 1 beyond the declared range, every subset of them known to the history, base 10 or 65534 (wrap), one status-vector chunk (2-bit symbols, padded to 7) with every symbol combination / one run-length chunk of each symbol; symbolic deltas (small 0..255, large int16), sizes, departure times, reference time. RFC 8888 path: two streams x 3 sent packets (every membership subset of the first stream), one report block per stream starting at 65535 (wrap), symbolic received flags, ECN, 13-bit arrival offsets and report timestamp: each ack == (recorded size/departure, encoded arrival = reference - offset/1024 s, ECN), nothing else acknowledged. Composition: feedback built by the TWCC recorder of this library for 4 sent packets (every arrival subset, arrival steps from a table, 2 bases incl. wrap) decoded by the gcc adapter, and two successive recorder feedbacks over 5 sent packets through rtpfb convertTWCC + history: each sent packet reported at most once, in send order, with the recorded arrival within 125 us; rtpfb convertTWCC on one 2-bit status-vector chunk with every symbol combination (incl. received-without-delta) for 1..5 statuses: status, arrival and delta consumption per number",
-                thorough="4 covered numbers"),
-    outside=["more than one chunk per feedback", "LRU eviction at size 250 (membership is chosen directly)", "rtpfb CCFB (RFC 8888) conversion", "composition with the RFC 8888 generator"],
+    ] + [dict(pkg="pkg/rtpfb", entry="HC09CCFB", params=dict(pat=k), require_covers=["two reports", "received block matched"], tiers=t) for (k, t) in ((0, ["quick", "thorough"]), (1, ["quick", "thorough"]), (2, ["thorough"]), (3, ["thorough"]))],
+    bounds=dict(quick="gcc FeedbackAdapter: 3 covered sequence numbers + 1 beyond the declared range, every subset of them known to the history, base 10 or 65534 (wrap), one status-vector chunk (2-bit symbols, padded to 7) with every symbol combination / one run-length chunk of each symbol; symbolic deltas (small 0..255, large int16), sizes, departure times, reference time. RFC 8888 path: two streams x 3 sent packets (every membership subset of the first stream), one report block per stream starting at 65535 (wrap), symbolic received flags, ECN, 13-bit arrival offsets and report timestamp: each ack == (recorded size/departure, encoded arrival = reference - offset/1024 s, ECN), nothing else acknowledged. Composition: feedback built by the TWCC recorder of this library for 4 sent packets (every arrival subset, arrival steps from a table, 2 bases incl. wrap) decoded by the gcc adapter, and two successive recorder feedbacks over 5 sent packets through rtpfb convertTWCC + history: each sent packet reported at most once, in send order, with the recorded arrival within 125 us; rtpfb convertTWCC on one 2-bit status-vector chunk with every symbol combination (incl. received-without-delta) for 1..5 statuses: status, arrival and delta consumption per number. rtpfb RFC 8888 path through the public Bind* API: 5 packets written on two non-TWCC streams (2 interleavings; one stream wraps), a marshalled CCFeedbackReport with 1-2 report blocks (streams in either order or an SSRC never sent; begin at first-1, first or first+2; 2 metric blocks each; symbolic received bits, ECN, 13-bit offsets) read through the bound RTCP reader, then a second report acknowledging everything: every PacketReport in the attributes names a written packet with its size/departure, in send order, at most once over both reports, and carries exactly the received bit, ECN and report time - offset/1024 s of the block for its (SSRC, sequence number); packets the feedback does not cover are never reported as arrived; a newly acknowledged packet is in the report",
+                thorough="4 covered numbers; rtpfb RFC 8888 path with 4 interleavings (incl. all packets on one stream)"),
+    outside=["more than one chunk per feedback", "LRU eviction at size 250 (membership is chosen directly)", "rtpfb RFC 8888 reports with several blocks for one SSRC, more than 2 metric blocks per block in the first report, report timestamps other than the read time", "composition with the RFC 8888 generator"],
     assumptions=["container/list executed from SSA", "time.Time 96-bit model"],
 )
 
@@ -167,13 +167,15 @@ CHECKS["C14"] = dict(
 )
 
 CHECKS["C19"] = dict(
-    jobs=[dict(pkg="pkg/stats", entry="HC19Recount", params=dict(events=2), require_covers=["incoming rtp counted", "XR first in a compound packet", "report block for the stream after another block"])]
+    jobs=[dict(pkg="pkg/stats", entry="HC19Recount", params=dict(events=2), require_covers=["incoming rtp counted", "XR first in a compound packet", "report block for the stream after another block", "outgoing feedback for the stream after one for another stream"])]
        + [dict(pkg="pkg/stats", entry="HC19RTT", params=dict(dbase=db, dbits=bits, srs=3), require_covers=["matching sender report", "no matching sender report"]) for (db, bits) in ((1, 10), (65536, 16), (65536000, 16), (4294900000, 16))]
        + [dict(pkg="pkg/stats", entry="HC19RTT", params=dict(dbase=65536, dbits=12, srs=7), require_covers=["matching sender report"])]
+       + [dict(pkg="pkg/stats", entry="HC19DLRR", params=dict(dbase=65536, dbits=10, rrs=2), require_covers=["matching reference time", "sub-report for another stream"],
+               thorough=dict(params=dict(dbase=65536, dbits=12, rrs=3), timeout=3000))]
        + [dict(pkg="pkg/stats", entry="HC19Interceptor", require_covers=["queried"])],
-    bounds=dict(quick="one recorder (SSRC 100), 2 events chosen from {incoming RTP, outgoing RTP, incoming RTCP compound of 2 packets out of NACK/PLI/FIR/XR, outgoing RTCP NACK/PLI/FIR}, each addressed to the stream or to another SSRC (symbolic), sequence numbers base+-3 for any base incl. wrap, payload length 0..1460; counters compared with a recount. RTT from LSR/DLSR: 3 remembered outgoing sender reports (symbolic NTP fractions), an incoming receiver report matching the k-th of them or none, DLSR in 4 windows (2^10 values from 1, 2^16 values from 1 s, 1000 s and the top of the 32-bit range), arrival within 2^30 ns: RTT == arrival - DLSR - send time of the matching report, one measurement; nothing on a mismatch. Interceptor level: one local and two remote streams behind one stats interceptor, RTP both ways with symbolic lengths (a foreign SSRC on the local writer, stale bytes beyond the read length), one outgoing and one marshalled incoming RTCP compound packet: every queried figure per SSRC equals the recount",
+    bounds=dict(quick="one recorder (SSRC 100), 2 events chosen from {incoming RTP, outgoing RTP, incoming RTCP compound of 2 packets out of NACK/PLI/FIR/XR, outgoing RTCP compound of 2 packets out of NACK/PLI/FIR}, each addressed to the stream or to another SSRC (symbolic), sequence numbers base+-3 for any base incl. wrap, payload length 0..1460; counters compared with a recount. RTT from LSR/DLSR: 3 remembered outgoing sender reports (symbolic NTP fractions), an incoming receiver report matching the k-th of them or none, DLSR in 4 windows (2^10 values from 1, 2^16 values from 1 s, 1000 s and the top of the 32-bit range), arrival within 2^30 ns: RTT == arrival - DLSR - send time of the matching report, one measurement; nothing on a mismatch. RTT from XR DLRR: 2 remembered outgoing receiver reference time reports, an incoming DLRR block with two sub-reports each addressed to this stream or another and matching the k-th reference or none, DLRR in a 2^10 window from 1 s: one measurement per matching sub-report for this SSRC with RTT == arrival - DLRR - reference send time, none for other SSRCs. Interceptor level: one local and two remote streams behind one stats interceptor, RTP both ways with symbolic lengths (a foreign SSRC on the local writer, stale bytes beyond the read length), one outgoing and one marshalled incoming RTCP compound packet: every queried figure per SSRC equals the recount",
                 thorough="same (3 events did not finish within 50 minutes)"),
-    outside=["DLRR (XR) round-trip time, remote jitter and packets-received figures", "packets that pass before a recorder has become active (it starts on its own goroutine)", "a stream whose first sequence number is below the reordering distance (unwrapper corner)", "FIR whose media SSRC field is 0 (RFC 5104 form)"],
+    outside=["remote jitter and packets-received figures", "DLRR values outside the listed window", "packets that pass before a recorder has become active (it starts on its own goroutine)", "a stream whose first sequence number is below the reordering distance (unwrapper corner)", "FIR whose media SSRC field is 0 (RFC 5104 form)"],
     assumptions=["pion/logging no-op"],
 )
 
@@ -182,6 +184,7 @@ CHECKS["C05"] = dict(
         dict(pkg="pkg/twcc", entry="HC05Chunks", params=dict(symbols=16), require_covers=["chunk flushed"], thorough=dict(params=dict(symbols=24))),
         dict(pkg="pkg/twcc", entry="HC05Packer", params=dict(steps=3, wire=1, dchoices=6), require_covers=["packet built", "delta too large: refused"], thorough=dict(params=dict(steps=4, dchoices=6), timeout=3400)),
         dict(pkg="pkg/twcc", entry="HC05Interceptor", params=dict(concretenow=1), require_covers=["feedback written"], no_native=True),
+        dict(pkg="pkg/twcc", entry="HC05Recorder", params=dict(records=3, span=2, steptab=1), require_covers=["feedback built", "build split into several packets", "aged out of the history", "duplicate ignored"]),
         dict(pkg="pkg/twcc", entry="HC05Recorder", params=dict(records=3, span=3), require_covers=["feedback built", "duplicate ignored"], thorough=dict(params=dict(records=4, span=2), flags=["-maxpaths", "3000000"], timeout=3400)),
     ],
     bounds=dict(quick="chunk packer: ANY sequence of 16 status symbols (0/1/2), emitted chunks decode to the driven sequence and are well formed; feedback packer: 3 received packets with gaps of 0 or 2 lost in between, arrival steps case-split over a table of boundary values (0, 125 us rounding, 255.5-unit small/large border, 64 ms, negative, beyond the int16 limit: must be refused; thorough adds 124 us, the int16 limits both ways, 12 s), 3 reference times, symbolic base sequence number (wrap) -> independent decode within 125 us, one delta per received status, real rtcp Marshal/Unmarshal round trip and declared length; recorder: 3 records (offsets 0..3 from 2 bases incl. wrap, duplicates, reordering, 4 arrival steps up to 70 ms) with a build after a case-split prefix and at the end; sender interceptor: 5 reads on a TWCC-negotiated stream, each with the extension / without it / failing (case split, 2 bases incl. wrap), harness-fired tick: one feedback covering base..highest with exactly the read packets marked received; a second tick writes nothing",
@@ -194,11 +197,12 @@ CHECKS["C16"] = dict(
     jobs=[
         dict(pkg="pkg/gcc", entry="HC16Publish", require_covers=["callback fired", "loss controller has adapted", "changed without callback"]),
         dict(pkg="pkg/gcc", entry="HC16RateStep", require_covers=["step", "stats written"], tiers=["thorough"], thorough=dict(timeout=3000)),
+        dict(pkg="pkg/gcc", entry="HC16Lifecycle", params=dict(concretenow=1, feedbacks=2), require_covers=["feedback fed", "closed"], thorough=dict(params=dict(concretenow=1, feedbacks=3))),
     ],
-    level_note="PARTIAL CLAIM: only the integer envelope of the estimator (clamps, min, publication to getter/pacer/callback) from arbitrary controller states; nothing about estimator quality, the Kalman/threshold/EMA numerics, liveness of the channel pipeline or Close. Trusted: go/ssa, gosym, z3/cvc5.",
-    bounds=dict(quick="one SendSideBWE.onDelayUpdate from an arbitrary state: any 0 < min <= initial <= max < 2^30, delay target anywhere in [min,max], loss controller bitrate at its initial value or anywhere in its private range; callback goroutine run to completion",
+    level_note="PARTIAL CLAIM: only the integer envelope of the estimator (clamps, min, publication to getter/pacer/callback) from arbitrary controller states; nothing about estimator quality, the Kalman/threshold/EMA numerics, liveness of the channel pipeline under feedback that carries acknowledgements. Trusted: go/ssa, gosym, z3/cvc5.",
+    bounds=dict(quick="one SendSideBWE.onDelayUpdate from an arbitrary state: any 0 < min <= initial <= max < 2^30, delay target anywhere in [min,max], loss controller bitrate at its initial value or anywhere in its private range; callback goroutine run to completion. Lifecycle: the real estimator (goroutine pipeline; NoOp or leaky bucket pacer) fed 2 feedback packets that acknowledge nothing (empty RFC 8888 report with any timestamp, TWCC feedback with status count 0, a PLI): accepted without blocking, target within bounds, Close returns, WriteRTCP after Close fails with ErrSendSideBWEClosed",
                 thorough="plus one rateController.onDelayStats step from an arbitrary state (any target in bounds, received rate < 2^40, RTT, elapsed time, arbitrary float64 moving averages incl. NaN/Inf, any usage/state); math.Pow is an uninterpreted function"),
-    outside=["numerical behaviour of the estimator", "WriteRTCP pipeline, Close, both pacers' timing", "loss controller update arithmetic (only its private clamp invariant is assumed)"],
+    outside=["numerical behaviour of the estimator", "WriteRTCP pipeline with feedback that acknowledges packets (float pipeline), both pacers' timing", "loss controller update arithmetic (only its private clamp invariant is assumed)"],
     assumptions=["time.Now nondeterministic non-decreasing", "math.Pow/Exp uninterpreted", "float->int conversion as go1.24/amd64"],
 )
 
@@ -241,11 +245,12 @@ CHECKS["C11"] = dict(
     jobs=[dict(pkg="internal/verifchain", entry="HC11Lifecycle", params=dict(kind=k), flags=["-unwind", "1200"], require_covers=["traffic after close returned", "rebind"]) for k in range(8)]
        + [dict(pkg="internal/verifchain", entry="HC11ReadThenClose", params=dict(kind=k), flags=["-unwind", "1200"], require_covers=["closed", "writer bound"], no_native=True) for k in (3, 5, 6, 7)]
        + [dict(pkg="internal/verifchain", entry="HC11Unbind", params=dict(kind=k, concretenow=1), flags=["-unwind", "1200"], require_covers=["feedback about the stream before unbind"], no_native=True) for k in (3, 4, 5, 10)]
-       + [dict(pkg="internal/verifchain", entry="HC11BindOrder", params=dict(kind=k, streams=3), flags=["-unwind", "1200"]) for k in (3, 4, 5, 6, 7, 10, 11, 12)],
+       + [dict(pkg="internal/verifchain", entry="HC11BindOrder", params=dict(kind=k, streams=3), flags=["-unwind", "1200"]) for k in (3, 4, 5, 6, 7, 10, 11, 12)]
+       + [dict(pkg="pkg/gcc", entry="HC11PacerClose", params=dict(concretenow=1), require_covers=["closed", "tick pending at Close"])],
     level_note="PARTIAL CLAIM: lifecycle sequences are issued by one harness thread; the interceptor's own goroutines run in a cooperative model (they run when the caller blocks or yields; every select choice is explored), i.e. schedules at synchronisation granularity, not pre-emptive interleavings; 'promptly' is read as 'returns' (a call that can never return is reported as 'all goroutines blocked'). Close racing with traffic from another goroutine is not explored.",
-    bounds=dict(quick="each of {NoOp, TWCC header extension, NACK responder, NACK generator, report sender, report receiver, TWCC sender, RFC 8888 sender}: BindRTCPWriter (writer failing nondeterministically), BindLocalStream, BindRemoteStream, BindRTCPReader; optional traffic (one write, one read of a well-formed TWCC-tagged packet, one failing RTCP read); optional Unbind+Bind of the same SSRCs with traffic; Close; the same traffic after Close; Unbind after Close. Plus, for the four reader-side interceptors: a Read issued on a second goroutine (with or without an RTCP writer bound) that is in progress or parked when Close is called must return. Plus, for NACK generator, report sender, report receiver and intervalpli: a bound stream with traffic gets feedback at a harness-fired tick; after Unbind of that stream two further ticks emit nothing about its SSRC. Plus, for 8 interceptors: three remote and three local streams bound before any RTCP writer is bound: every Bind returns",
+    bounds=dict(quick="each of {NoOp, TWCC header extension, NACK responder, NACK generator, report sender, report receiver, TWCC sender, RFC 8888 sender}: BindRTCPWriter (writer failing nondeterministically), BindLocalStream, BindRemoteStream, BindRTCPReader; optional traffic (one write, one read of a well-formed TWCC-tagged packet, one failing RTCP read); optional Unbind+Bind of the same SSRCs with traffic; Close; the same traffic after Close; Unbind after Close. Plus, for the four reader-side interceptors: a Read issued on a second goroutine (with or without an RTCP writer bound) that is in progress or parked when Close is called must return. Plus, for NACK generator, report sender, report receiver and intervalpli: a bound stream with traffic gets feedback at a harness-fired tick; after Unbind of that stream two further ticks emit nothing about its SSRC. Plus, for 8 interceptors: three remote and three local streams bound before any RTCP writer is bound: every Bind returns. Plus the gcc leaky bucket pacer (default pacer of the estimator behind the cc interceptor): 0-2 packets queued, a tick pending or not when Close is called, both outcomes of the done/tick select: Close returns only after the pacing goroutine has finished and nothing reaches the RTP writer afterwards",
                 thorough="same"),
-    outside=["Close racing with traffic at finer granularity than 'reader parked / not parked'", "two concurrent Close calls", "ticker fires during the sequence", "stats, packetdump, pacing, gcc, jitter buffer, flexfec interceptors; intervalpli only in the unbind scenario (binding two PLI streams before any RTCP writer is bound fills its 1-slot channel and would block: not examined)", "release of per-stream memory (see C12)"],
+    outside=["Close racing with traffic at finer granularity than 'reader parked / not parked'", "two concurrent Close calls", "ticker fires during the sequence", "stats, packetdump, pacing, cc/gcc (other than the leaky bucket pacer and the estimator's Close, see C16), jitter buffer, flexfec interceptors; intervalpli only in the unbind scenario (binding two PLI streams before any RTCP writer is bound fills its 1-slot channel and would block: not examined)", "release of per-stream memory (see C12)"],
     assumptions=["cooperative thread model", "tickers never fire unless fired by the harness"],
 )
 
@@ -256,10 +261,11 @@ CHECKS["C12"] = dict(
         dict(pkg="internal/cc", entry="HC12LRU", params=dict(size=3, adds=5), require_covers=["full"]),
         dict(pkg="pkg/rfc8888", entry="HC12StreamLog", params=dict(packets=4), require_covers=["reported"]),
         dict(pkg="pkg/twcc", entry="HC12ArrivalMap", params=dict(ops=3), flags=["-maxsteps", "80000000", "-unwind", "70000"], require_covers=["culled"]),
+        dict(pkg="pkg/stats", entry="HC12StatsLists", params=dict(reports=8), require_covers=["sender report list saturated"], thorough=dict(params=dict(reports=12))),
     ],
-    level_note="PARTIAL CLAIM: resource invariants of individual containers (sizes after an operation, equal sizes after two equal phases), decided on the engine's explicit heap; not measured memory, not GC reachability, not goroutine stacks, and only the containers listed. 'Does not grow with the number of packets' is claimed only as 'two successive equal phases leave equal container sizes' for the rtpfb history and as fixed bounds for the LRU and the RFC 8888 stream log.",
-    bounds=dict(quick="rtpfb history: two phases of 3 sent+acknowledged+reported packets (TWCC keyed / SSRC+sequence keyed, any base sequence number): all three maps empty after each report; gcc send history LRU of size 3: every sequence of 5 adds over 10 keys: length <= 3, list and index agree; RFC 8888 stream log: every sequence of 4 adds (offsets 0..5) then a report with budget 1..6: entries <= budget and none below the report pointer; TWCC arrival-time map: every sequence of 3 operations out of {add with a jump of +1,+5,+200,+9000,+40000,-3,-300; cull} from a fixed start, then EraseTo: capacity a power of two in [128, 2^15], range <= capacity, capacity <= max(128, 4*range) after each adjustment, stored entries read back (this job is a case-split enumeration: no symbolic data)",
+    level_note="PARTIAL CLAIM: resource invariants of individual containers (sizes after an operation, equal sizes after two equal phases), decided on the engine's explicit heap; not measured memory, not GC reachability, not goroutine stacks, and only the containers listed. 'Does not grow with the number of packets' is claimed only as 'two successive equal phases leave equal container sizes' for the rtpfb history and as fixed bounds for the LRU, the RFC 8888 stream log and the stats recorder's report lists.",
+    bounds=dict(quick="rtpfb history: two phases of 3 sent+acknowledged+reported packets (TWCC keyed / SSRC+sequence keyed, any base sequence number): all three maps empty after each report; gcc send history LRU of size 3: every sequence of 5 adds over 10 keys: length <= 3, list and index agree; RFC 8888 stream log: every sequence of 4 adds (offsets 0..5) then a report with budget 1..6: entries <= budget and none below the report pointer; TWCC arrival-time map: every sequence of 3 operations out of {add with a jump of +1,+5,+200,+9000,+40000,-3,-300; cull} from a fixed start, then EraseTo: capacity a power of two in [128, 2^15], range <= capacity, capacity <= max(128, 4*range) after each adjustment, stored entries read back (this job is a case-split enumeration: no symbolic data); stats recorder: every sequence of 8 outgoing sender reports / receiver reference time reports with symbolic NTP values: both remembered lists have length min(count, 5) and hold the newest values in order",
                 thorough="same"),
-    outside=["receiveLog/RTPBuffer/receiverStream (fixed-size by construction; allocation-free steps not checked)", "stats recorder report lists", "jitter buffer and pacer queues", "collectability after Unbind/Close", "bytes of heap"],
+    outside=["receiveLog/RTPBuffer/receiverStream (fixed-size by construction; allocation-free steps not checked)", "jitter buffer and pacer queues", "collectability after Unbind/Close", "bytes of heap"],
     assumptions=["Go maps modelled as entry lists"],
 )
